@@ -250,14 +250,21 @@ def types(a, env=None, func=False):
                 for a_ in a.body:
                     env_ = types(a_, env_, func=True)
             else:
-                rules_no_restriction(a)
-                rules_no_restriction(a.args)
-
                 t_ret = None
                 try:
                     t_ret = _types_eval(a.returns)
                 except ValueError:
                     pass  # Missing or unsupported annotation (remains restricted).
+                if t_ret not in (None, type(None)) and not (
+                    len(a.body) > 0 and isinstance(a.body[-1], ast.Return)
+                ):
+                    # Calls are given the declared return type: a function that can end
+                    # without returning a value stays outside the subset.
+                    return env
+
+                rules_no_restriction(a)
+                rules_no_restriction(a.args)
+
                 if t_ret is not None and _types_monomorphic(t_ret):
                     rules_no_restriction(a.returns)
 
@@ -437,6 +444,15 @@ def types(a, env=None, func=False):
                             "returned value does not have the declared return type"
                         ),
                     )
+            elif env.get("return") not in (None, type(None)):
+                # A bare return in a function that declares a return type.
+                audits(
+                    a,
+                    "types",
+                    TypeErrorRoot(
+                        "returned value does not have the declared return type"
+                    ),
+                )
         return env
 
     if isinstance(a, ast.For):
